@@ -45,6 +45,12 @@ func contentPlan(prop string, tier string, root *simcore.RNG, sinks []string, nq
 			j.Pre = pick(r, []int{1, 83, 84, 134, 5000, 40000, 300000})
 		}
 		j.Name = pick(r, fileNames)
+		// a renderer may call Close in the middle of its output (a flush per part)
+		if nb := countBatches(j.Batches); nb > 2 && r.Intn(4) == 0 {
+			for k := 0; k < 1+r.Intn(3); k++ {
+				j.CloseAt = append(j.CloseAt, 1+r.Intn(nb-1))
+			}
+		}
 		j.Reuse = r.Intn(4) == 0
 		j.CloseTwice = r.Intn(5) == 0
 		sc := &Scenario{Prop: prop, Family: "content", Seed: r.Uint64(), Env: genEnv(r), Groups: [][]Job{{j}},
@@ -79,6 +85,9 @@ func contentPlan(prop string, tier string, root *simcore.RNG, sinks []string, nq
 			for _, s2 := range sinkSites(sink) {
 				sc.Sites[s2] = 1
 			}
+		}
+		if r.Intn(8) == 1 {
+			sc.GCStormMs = 2 + r.Intn(8)
 		}
 		if r.Intn(8) == 0 {
 			sc.ConsStallMs, sc.ConsStallEvery = 3+r.Intn(4), pick(r, []int{1, 2, 4})
@@ -115,6 +124,9 @@ func contentPlan(prop string, tier string, root *simcore.RNG, sinks []string, nq
 					sc := &Scenario{Prop: prop, Family: "content", Seed: r.Uint64(), Env: genEnv(r), Groups: [][]Job{{j}},
 						Sites: activeSites(r, sink, false), Sched: genSched(r, []string{"consumer", "renderer"}), Note: "large", StepCap: 4000000}
 					delete(sc.Sites, "auto")
+					if r.Intn(3) == 0 {
+						sc.GCStormMs = 3 + r.Intn(10)
+					}
 					// pipelines inside a writer only show with many blocks in flight: half of
 					// these on the -race build, the largest ones on both builds
 					if r.Intn(2) == 0 {
